@@ -11,7 +11,7 @@ use miette::{Diagnostic, SourceSpan};
 use thiserror::Error;
 
 use winnow::ascii::{digit1, space0};
-use winnow::combinator::{alt, opt, preceded, separated};
+use winnow::combinator::{alt, eof, opt, preceded, separated};
 use winnow::error::{AddContext, ErrMode, ErrorKind, FromExternalError, ParserError};
 use winnow::stream::Stream;
 use winnow::token::{literal, take_while};
@@ -637,9 +637,11 @@ fn version<'s>(input: &mut &'s str) -> PResult<Version, SemverParseError<&'s str
         space0,
         version_core,
         extras,
+        space0,
+        eof,
     )
         .map(
-            |(_, _, (major, minor, patch), (pre_release, build))| Version {
+            |(_, _, (major, minor, patch), (pre_release, build), _, _)| Version {
                 major,
                 minor,
                 patch,
